@@ -139,11 +139,14 @@ def step (st : DState) (line : String) : DState × String :=
     | none => (st, "bad-op")
     | some k => (st, "ok " ++ snapStr k)
   | ["x.verify", w, m, s, p] => (st, showO showBool (Xmss.verifyW hashOf (unhex m) (unhex s) (unhex p) w.toNat!))
-  | ["x.craft", hf, h, idx, m, rnd] =>   -- model-only: a valid triple at a height where no key can be generated
-    let mat := shake256 (unhex rnd) (96 + 32 * 30)
-    let auth := (List.range 30).map fun i => (mat.drop (96 + 32 * i)).take 32
-    (st, showO (fun (p : Bytes × Bytes) => s!"{hx p.1} {hx p.2}")
-      (Xmss.craft hashOf hf.toNat! h.toNat! idx.toNat! (unhex m) (mat.take 32) ((mat.drop 32).take 32) ((mat.drop 64).take 32) auth))
+  | ["x.craft", w, hf, h, idx, m, rnd] =>   -- model-only: a valid triple at a height where no key can be generated
+    match Xmss.wparams? w.toNat! with
+    | none => (st, "refuse:logW")
+    | some p =>
+      let mat := shake256 (unhex rnd) (96 + 32 * 30)
+      let auth := (List.range 30).map fun i => (mat.drop (96 + 32 * i)).take 32
+      (st, showO (fun (q : Bytes × Bytes) => s!"{hx q.1} {hx q.2}")
+        (Xmss.craft hashOf p hf.toNat! h.toNat! idx.toNat! (unhex m) (mat.take 32) ((mat.drop 32).take 32) ((mat.drop 64).take 32) auth))
   | ["x.wparams", w] =>
     match Xmss.wparams? w.toNat! with
     | some p => (st, s!"ok {p.len1} {p.len2} {p.len} {p.logW} {p.keySize}")
